@@ -4,16 +4,30 @@ Local Open Scope Z_scope.
 (* ---------- checked = unchecked when the check passes ---------- *)
 Lemma idiv_checked_eq m t a b : h_idiv m t true a b <> OPanic -> h_idiv m t true a b = h_idiv m t false a b.
 Proof.
-  unfold h_idiv. destruct (c_eq (t, b) (lit (-1))) as [c1|]; [|reflexivity].
+  unfold h_idiv, h_idiv_rest. destruct (c_eq (t, b) (lit (-1))) as [c1|]; [|reflexivity].
   destruct (c_truth c1); [reflexivity|]. cbn [andb].
   destruct (b =? 0); [intros H; exfalso; apply H; reflexivity|reflexivity].
 Qed.
 Lemma imod_checked_eq m t a b : h_imod m t true a b <> OPanic -> h_imod m t true a b = h_imod m t false a b.
 Proof.
-  unfold h_imod. destruct (c_eq (t, b) (lit (-1))) as [c1|]; [|reflexivity].
+  unfold h_imod, h_imod_rest. destruct (c_eq (t, b) (lit (-1))) as [c1|]; [|reflexivity].
   destruct (c_truth c1); [reflexivity|]. cbn [andb].
   destruct (b =? 0); [intros H; exfalso; apply H; reflexivity|reflexivity].
 Qed.
+(* over the helpers as emitted (guard position scraped): includes the b == -1 path *)
+Lemma idiv_helper_checked_eq m t a b : idiv_helper m t true a b <> OPanic -> idiv_helper m t true a b = idiv_helper m t false a b.
+Proof. unfold idiv_helper, emitted_idiv_helper. change idiv_guard_first with true. cbn [orb]. apply idiv_checked_eq. Qed.
+Lemma imod_helper_checked_eq m t a b : imod_helper m t true a b <> OPanic -> imod_helper m t true a b = imod_helper m t false a b.
+Proof. unfold imod_helper, emitted_imod_helper. change imod_guard_first with true. cbn [orb]. apply imod_checked_eq. Qed.
+(* the b == -1 path of the unchecked variants: MIN // -1 wraps, MIN % -1 is 0, for every signed width *)
+Lemma unchecked_min_neg1 : forall t, In t signed_types ->
+  idiv_helper base_mode t false (imin t) (-1) = ORet (imin t) /\ imod_helper base_mode t false (imin t) (-1) = ORet 0 /\
+  idiv_helper base_mode t true (imin t) (-1) = ORet (imin t) /\ imod_helper base_mode t true (imin t) (-1) = ORet 0.
+Proof. intros t Ht. pattern t. apply signed_cases; [| | | |exact Ht]; vm_compute; repeat split; reflexivity. Qed.
+(* without the guard the raw division is undefined there (what the guard is for) *)
+Lemma rest_min_neg1_ub : h_idiv_rest base_mode I64 false minint (-1) = OUB /\ h_imod_rest base_mode I64 false minint (-1) = OUB.
+Proof. vm_compute. split; reflexivity. Qed.
+
 Lemma bounds_checked_eq it i len : h_bounds it true i len <> OPanic -> h_bounds it true i len = h_bounds it false i len.
 Proof. unfold h_bounds. cbn [andb]. destruct (_ || _); [intros H; exfalso; apply H; reflexivity|reflexivity]. Qed.
 Lemma deref_checked_eq p : h_deref true p <> OPanic -> h_deref true p = h_deref false p.
